@@ -533,6 +533,9 @@ def run_pool(prop, tier, seed, budget_s=None, workers=None, max_runs=None,
         )
         env.pop("LC_ALL", None)
         env.pop("LC_CTYPE", None)
+        # machines live in different time zones (nothing in soundevent looks
+        # at the zone today)
+        env["TZ"] = ["UTC", "Asia/Kolkata", "America/St_Johns", "Pacific/Auckland"][w % 4]
         if w % 8 == 7:
             # process-environment dimension: these workers (and the nodes
             # forked from them) run with assert statements compiled away
